@@ -50,7 +50,7 @@ theorem decode_final {v m : Nat} (hv : v < 40) (hm : m < 8) (l : ECL) (S data : 
   have hmb : T.dataCodewords l v ≤ T.maxBytes v := by rw [hlay.2.2.2.2.2.2]; omega
   have hfmt := FormatRead.formatCopy1_final hv hm l S
   have hff := (FormatRead.format_facts l hm).2
-  rw [← Props.C04.C04_format_table l hm] at hff
+  rw [← FormatRead.format_table l hm] at hff
   have hbits := ReadBack.readBits_final hv hm l S
   have hcut := CutBytes.bytesOfBits_bitsFrom S (T.missingBits v) hmiss (T.maxBytes v) 0
   have hbf : (List.range (8 * T.maxBytes v + T.missingBits v)).map (bitAt S) =
